@@ -186,8 +186,17 @@ example : isAccept (load wCfgDiamond) = true := by decide
     oracle, either direction, including early responses continued on the response side) within `bound`
     processor executions and returns actions or an error; it never recurses without end. -/
 theorem accepted_runs_safely (c : Cfg) (fls : List Flow) (h : load c = .accept fls) (o : Oracle) (d : Dir) :
-    (runTxn fls o d).err ≠ some .fuel ∧ steps (runTxn fls o d).trace ≤ bound fls :=
-  transaction_ok o (walkFuel fls) fls d (load_ready h)
+    (runTxn c fls o d).err ≠ some .fuel ∧ steps (runTxn c fls o d).trace ≤ bound fls :=
+  runTxn_ok c o fls d (load_ready h)
+
+/-- regression examples for F05d / F05e (repaired): an empty entry in a connection list is refused as a
+    YAML-level error; a flow with a `status_code` filter takes part in a response with a listed status, and is
+    left out of the response walk of an early response (there is no response whose status could be tested):
+    `G` answers, the response side of the same flow (filter 429, 500) is not walked — 1 execution. -/
+example : load { wCfgOk with flows := wCfgOk.flows.map fun f => { f with res := f.res ++ [⟨.nothing, .nothing⟩] } } =
+    .reject "yaml" := by decide
+example : (modelObs wCfgStatus [(wOracleA, .req), (fun _ _ _ => { name := "a" }, .res)]) =
+    ⟨.accept true, [.ok 1, .ok 0]⟩ := by decide
 
 /-- **judge_holds_of_model** — the connection theorem: the judge predicate is true of EVERY model run (any
     configuration, any list of transactions).  So a judge failure on the implementation is by construction
@@ -200,7 +209,7 @@ theorem judge_holds_of_model (c : Cfg) (txns : List (Oracle × Dir)) : holds c (
     intro t _
     have := accepted_runs_safely c fls hl t.1 t.2
     simp only [Function.comp, modelTxnObs, hl, cfgBound, resObs]
-    cases he : (runTxn fls t.1 t.2).err with
+    cases he : (runTxn c fls t.1 t.2).err with
     | none => simpa [txnOk] using this.2
     | some e =>
       cases e with
